@@ -69,6 +69,7 @@ type Frame struct {
 	postMode bool
 	nameFrame *Frame
 	lastPartial map[*Cell]map[int]bool
+	inlineInits bool
 }
 
 type retInfo struct {
@@ -1461,6 +1462,9 @@ func (fr *Frame) execUnOp(in *ssa.UnOp, cond string, st *State) Val {
 			if pat, ok := vc.W.Regexes[g]; ok {
 				p := pat
 				return Val{T: in.Type(), Re: &p, Term: "0"}
+			}
+			if fn, ok := vc.W.FuncGlobals[g]; ok {
+				return Val{T: in.Type(), Clo: &Closure{Fn: fn}}
 			}
 		}
 		if n := vc.ptrNil(x); n != "false" {
